@@ -60,7 +60,7 @@ class TlcResult:
 def run_tlc(module, constants=None, invariants=(), spec=None, init=None, nxt=None,
             props=(), constraint=None, view=None, workers=4, timeout=900, extra=(),
             env=None, simulate=None, deadlock=False, postcondition=None, heap="8g",
-            copy=None):
+            copy=None, overrides=None):
     """Run TLC on tla/<module>.tla with a generated config in a scratch dir."""
     tmp = tempfile.mkdtemp(prefix="tlc-", dir=workdir())
     try:
@@ -80,6 +80,11 @@ def run_tlc(module, constants=None, invariants=(), spec=None, init=None, nxt=Non
             lines.append("CONSTANTS")
             for k, v in constants.items():
                 lines.append("  %s = %s" % (k, cfg_value(v)))
+        if overrides:            # definition overrides: {"Def": "OtherDef"} (both defined in the module)
+            if not constants:
+                lines.append("CONSTANTS")
+            for k, v in overrides.items():
+                lines.append("  %s <- %s" % (k, v))
         for i in invariants:
             lines.append("INVARIANT " + i)
         for p in props:
